@@ -256,7 +256,7 @@ func sliceKinds() *slice {
 // TStrArr stands for "literal collection of ints" here, so that only literals appear on the right.
 func sliceMembership() *slice {
 	rules := []*Rule{
-		Var("I", TInt), Lit("1", TInt, 1), Lit("2", TInt, 2), Var("A", TIntArr), Var("O", TObj), Hash(TInt),
+		Var("I", TInt), Lit("1", TInt, 1), Lit("2", TInt, 2), Lit("010", TInt, 10), Var("A", TIntArr), Var("O", TObj), Hash(TInt),
 		{Op: "lit", Arg: "1..3", Out: TStrArr, Fmt: "1..3", Extra: []int{1, 2, 3}}, {Op: "lit", Arg: "3..1", Out: TStrArr, Fmt: "3..1", Extra: []int{}},
 		Lit("[1, 2]", TStrArr, []int{1, 2}),
 		Bin("in", TInt, TStrArr, TBool), Bin("not in", TInt, TStrArr, TBool),
